@@ -14,7 +14,17 @@ import (
 
 type radiaRec struct {
 	DGAC, DGAO, DLE, DRC, DL, SUND, RAD, VSWELL, TRREL, DTGA, AMAX, EFFE, MAINTPOT float64
+	RDN                                                                      float64
 	COLD, Reached                                                            bool
+	O                                                                        map[string]float64 // results (and some arguments) of the transcendental calls, by site
+}
+
+func (r *radiaRec) o(name string, v float64) float64 {
+	if r.O == nil {
+		r.O = map[string]float64{}
+	}
+	r.O[name] = v
+	return v
 }
 
 func radiaShadow(g *hermes.GlobalVarsMain, l *hermes.CropSharedVars, temptyp int, rec *radiaRec) (DLE, DLP, GPHOT, MAINT float64) {
@@ -38,13 +48,13 @@ func radiaShadow(g *hermes.GlobalVarsMain, l *hermes.CropSharedVars, temptyp int
 	var cocomp float64
 	// ! ++++++++++++++  Auswahl mehrerer Methoden zum CO2 Effect +++++++++++++++
 	if g.CO2METH == 1 {
-		cocomp = 17.5 * math.Pow(2, ((g.TEMP[g.TAG.Index]-10)/10))
+		cocomp = 17.5 * rec.o("p2", math.Pow(2, ((g.TEMP[g.TAG.Index]-10)/10)))
 		EFF = (g.CO2KONZ - cocomp) / (g.CO2KONZ + 2*cocomp) * EFF0
 	} else if g.CO2METH == 3 {
 		// ********* Gleichungen von Long 1991 und Mitchel et al. 1995 **************************
-		KTvmax := math.Exp(68800 * ((g.TEMP[g.TAG.Index] + 273) - 298) / (298 * (g.TEMP[g.TAG.Index] + 273) * 8.314))
-		Ktkc := math.Exp(65800 * ((g.TEMP[g.TAG.Index] + 273) - 298) / (298 * (g.TEMP[g.TAG.Index] + 273) * 8.314))
-		Ktko := math.Exp(1400 * ((g.TEMP[g.TAG.Index] + 273) - 298) / (298 * (g.TEMP[g.TAG.Index] + 273) * 8.314))
+		KTvmax := rec.o("ktv", math.Exp(68800 * ((g.TEMP[g.TAG.Index] + 273) - 298) / (298 * (g.TEMP[g.TAG.Index] + 273) * 8.314)))
+		Ktkc := rec.o("ktc", math.Exp(65800 * ((g.TEMP[g.TAG.Index] + 273) - 298) / (298 * (g.TEMP[g.TAG.Index] + 273) * 8.314)))
+		Ktko := rec.o("kto", math.Exp(1400 * ((g.TEMP[g.TAG.Index] + 273) - 298) / (298 * (g.TEMP[g.TAG.Index] + 273) * 8.314)))
 		// Berechnung des Transformationsfaktors für pflanzenspez. AMAX bei 25 grad *********
 		Fakamax := g.MAXAMAX / 34.695
 		vcmax := 98 * Fakamax * KTvmax
@@ -87,7 +97,7 @@ func radiaShadow(g *hermes.GlobalVarsMain, l *hermes.CropSharedVars, temptyp int
 				KCo1 = 220 + 0.158*g.RAD[g.TAG.Index]*20
 				Coco = 80 - 0.0036*g.RAD[g.TAG.Index]*20
 			} else {
-				SC := 1367. * (1 + 0.033*math.Cos(2*math.Pi*g.TAG.Num/365))
+				SC := 1367. * (1 + 0.033*rec.o("cossc", math.Cos(2*math.Pi*g.TAG.Num/365)))
 				EXT := SC * RDN / 10000
 				Glob := EXT * (0.19 + 0.55*g.SUND[g.TAG.Index]/DL)
 				KCo1 = 220 + 0.158*Glob
@@ -125,13 +135,15 @@ func radiaShadow(g *hermes.GlobalVarsMain, l *hermes.CropSharedVars, temptyp int
 	}
 	REFLC := .08
 	EFFE := (1. - REFLC) * EFF
-	SSLAE := math.Sin((90. + DEC - g.LAT) * math.Pi / 180.)
-	X := math.Log(1. + .45*DRC/(DLE*3600.)*EFFE/(SSLAE*amax))
+	SSLAE := rec.o("sslae", math.Sin((90. + DEC - g.LAT) * math.Pi / 180.))
+	xArg := rec.o("xarg", 1. + .45*DRC/(DLE*3600.)*EFFE/(SSLAE*amax))
+	X := rec.o("logx", math.Log(xArg))
 	PHCH1 := SSLAE * amax * DLE * X / (1. + X)
-	Y := math.Log(1. + .55*DRC/(DLE*3600.)*EFFE/((5-SSLAE)*amax))
+	yArg := rec.o("yarg", 1. + .55*DRC/(DLE*3600.)*EFFE/((5-SSLAE)*amax))
+	Y := rec.o("logy", math.Log(yArg))
 	PHCH2 := (5. - SSLAE) * amax * DLE * Y / (1. + Y)
 	PHCH := 0.95*(PHCH1+PHCH2) + 20.5
-	PHC3 := PHCH * (1. - math.Exp(-.8*g.LAI))
+	PHC3 := PHCH * (1. - rec.o("elai", math.Exp(-.8*g.LAI)))
 	PHC4 := DL * g.LAI * amax
 	var MIPHC, MAPHC float64
 	if PHC3 < PHC4 {
@@ -144,11 +156,11 @@ func radiaShadow(g *hermes.GlobalVarsMain, l *hermes.CropSharedVars, temptyp int
 	if MIPHC == 0 {
 		MIPHC = 0.000001
 	}
-	PHCL := MIPHC * (1. - math.Exp(-MAPHC/MIPHC))
+	PHCL := MIPHC * (1. - rec.o("ec", math.Exp(rec.o("ecarg", -MAPHC/MIPHC))))
 	Z := DRO / (DLE * 3600.) * EFFE / (5. * amax)
 	PHOH1 := 5. * amax * DLE * Z / (1. + Z)
 	PHOH := 0.9935*PHOH1 + 1.1
-	PHO3 := PHOH * (1. - math.Exp(-.8*g.LAI))
+	PHO3 := PHOH * (1. - rec.o("elai", math.Exp(-.8*g.LAI)))
 	var MIPHO, MAPHO float64
 	if PHO3 < PHC4 {
 		MIPHO = PHO3
@@ -160,7 +172,7 @@ func radiaShadow(g *hermes.GlobalVarsMain, l *hermes.CropSharedVars, temptyp int
 	if MIPHO == 0 {
 		MIPHO = 0.000001
 	}
-	PHOL := MIPHO * (1. - math.Exp(-MAPHO/MIPHO))
+	PHOL := MIPHO * (1. - rec.o("eo", math.Exp(rec.o("eoarg", -MAPHO/MIPHO))))
 	var DGAC, DGAO float64
 	if g.LAI-5 < 0 {
 		DGAC = PHCL
@@ -170,7 +182,7 @@ func radiaShadow(g *hermes.GlobalVarsMain, l *hermes.CropSharedVars, temptyp int
 		DGAO = PHOH
 	}
 	rec.DGAC, rec.DGAO, rec.DLE, rec.DRC, rec.DL = DGAC, DGAO, DLE, DRC, DL
-	rec.SUND, rec.RAD = g.SUND[g.TAG.Index], g.RAD[g.TAG.Index]
+	rec.SUND, rec.RAD, rec.RDN = g.SUND[g.TAG.Index], g.RAD[g.TAG.Index], RDN
 	var DTGA float64
 	// ----------- BERÜCKSICHTIGUNG DER SONNENSCHEINDAUER -------
 	if g.RAD[g.TAG.Index] == 0 {
